@@ -25,17 +25,18 @@ CONSTANTS
     MaxPts,      \* requested grid size (1..MaxPts)
     Lead,        \* grid candidates: start - Lead .. end + 2 (whole ticks) ...
     EpsPts,      \* ... and, when TRUE, the points just after the start and just after every step boundary
-    ReadBefore   \* TRUE: on a continued simulator the result may be read (views computed) before the protocol
+    ReadBefore,  \* TRUE: on a continued simulator the result may be read (views computed) before the protocol
+    Repeat       \* TRUE: a relative time-course call may be made a second time with the same grid (the same array)
 
 VARIABLE b     \* builder: [phase, steps, pts]
 
-Pars == <<PA, PB, PC, P0>>
+Pars == <<PA, PB, PC, P0, PZ>>
 
 PrefixMenu(s) ==
     LET t == s.now
     IN << OpSim(TAdd(t, 3), 1), OpSim(TAdd(t, 2), 2), OpOv(10), OpUpd("k", IF s.p.kk = 128 THEN 64 ELSE 128),
           OpTc(Rel(t, <<1, 4>>)), OpSs(T(s.nss + 1, 0)), OpClear, OpProto(Proto2, 1), OpUpd("kin", 32),
-          OpTc(<<TEps(t), TAdd(t, 3)>>) >>
+          OpTc(<<TEps(t), TAdd(t, 3)>>), OpUpd("kin", 0) >>
 
 Total(steps) == Cum(steps, Len(steps))
 AllEven(steps) == \A i \in 1..Len(steps) : steps[i].d % 2 = 0
@@ -47,7 +48,7 @@ Commits(s, bb) ==
 
 Record(op, r) == Append(h, [op |-> op, raised |-> r.raised, st |-> r.st])
 
-PInit == st = Fresh /\ h = <<>> /\ b = [phase |-> "prefix", steps |-> <<>>, pts |-> <<>>]
+PInit == st = Fresh /\ h = <<>> /\ b = [phase |-> "prefix", steps |-> <<>>, pts |-> <<>>, rep |-> FALSE]
 
 AddPrefix == /\ b.phase = "prefix" /\ Len(h) < MaxPrefix
              /\ \E i \in PrefixIdx : LET op == PrefixMenu(st)[i]
@@ -77,13 +78,21 @@ Commit == /\ b.phase = "pts"
           /\ \E op \in Commits(st, b) : LET r == Eff(op, st)
                                         IN st' = r.st /\ h' = Record(op, r)
           /\ b' = [b EXCEPT !.phase = "post"]
+\* the same relative call once more (the harness hands over the very same array object)
+Again == /\ b.phase = "post" /\ Repeat /\ ~b.rep
+         /\ h[Len(h)].op.k = "ptc" /\ h[Len(h)].op.rel /\ ~h[Len(h)].raised
+         /\ LET op == h[Len(h)].op
+                r == Eff(op, st)
+            IN /\ RefusalOf(op, st) /\ PointsOf(op, st) /\ StepsOf(op, st)
+               /\ st' = r.st /\ h' = Record(op, r)
+         /\ b' = [b EXCEPT !.rep = TRUE]
 Post == /\ b.phase = "post"
         /\ LET op == OpSim(TAdd(st.now, 2), 1)
                r == Eff(op, st)
            IN st' = r.st /\ h' = Record(op, r)
         /\ b' = [b EXCEPT !.phase = "end"]
 
-PNext == AddPrefix \/ EndPrefix \/ EndPrefixRead \/ AddStep \/ EndSteps \/ AddPoint \/ Commit \/ Post
+PNext == AddPrefix \/ EndPrefix \/ EndPrefixRead \/ AddStep \/ EndSteps \/ AddPoint \/ Commit \/ Again \/ Post
 
 PEmit == (EmitOn /\ b.phase = "end") => PrintT("@J@" \o ToJson(h) \o "@E@")
 
